@@ -40,6 +40,7 @@ func c03(c *core.Ctx) map[string]interface{} {
 	r3seqof(c)
 	r3octets(c)
 	r3bits(c)
+	r3content(c)
 	return map[string]interface{}{"ngap_types": len(s.Types)}
 }
 
